@@ -329,4 +329,36 @@ def Parsed.resolveByHash (p : Parsed) (hash locale content : Nat) : Option Bytes
   (p.blocks.flatMap fun b => (b.recs.filter (·.nameHash == some hash)).map fun r => (b, r)).find?
     (fun br => entryMatches br.1.locale br.1.content locale content) |>.map (·.2.ckey)
 
+/-! ### the lookup tables themselves (`RootLookupTables`, filled by `build_lookups`) -/
+
+/-- one `RootEntry`: index of the containing block, that block's locale and content flags, the
+record's content key -/
+structure Entry where
+  blockIndex : Nat
+  locale : Nat
+  content : Nat
+  ckey : Bytes
+deriving Repr, DecidableEq
+
+/-- the entry list `build_lookups` leaves under one map key (`q` selects the key's records):
+`add_entry` pushes ONE entry per record, in block order then record order, each carrying the flags
+of its own block — a file listed by several blocks has several entries, also when they share the
+content key -/
+def entriesFrom (q : Rec → Bool) : Nat → List Block → List Entry
+  | _, [] => []
+  | i, b :: rest =>
+    ((b.recs.filter q).map fun r => ({ blockIndex := i, locale := b.locale, content := b.content, ckey := r.ckey } : Entry))
+      ++ entriesFrom q (i + 1) rest
+
+/-- `get_entries_by_id` (the empty list stands for `None`: a key exists iff a record pushed an entry) -/
+def Parsed.entriesById (p : Parsed) (fdid : Nat) : List Entry := entriesFrom (·.fdid == fdid) 0 p.blocks
+
+/-- `get_entries_by_hash` / `get_entries_by_path` given the path's name hash -/
+def Parsed.entriesByHash (p : Parsed) (hash : Nat) : List Entry := entriesFrom (·.nameHash == some hash) 0 p.blocks
+
+/-- `lookup_stats`: number of keys of `fdid_map` and of `name_map` -/
+def Parsed.lookupStats (p : Parsed) : Nat × Nat :=
+  let recs := p.blocks.flatMap (·.recs)
+  ((recs.map (·.fdid)).eraseDups.length, (recs.filterMap (·.nameHash)).eraseDups.length)
+
 end Cascette.Model.RootFile
